@@ -1,9 +1,10 @@
 """C13 — a cut-off or corrupt response is never presented as complete.
 
 case = {"payload": bytes, "coding": identity|gzip|deflate|zstd, "framing": len|chunked|eof, "chunks": [sizes], "ext": bool, "segs": [sizes],
-        "decode": bool, "api": [name, arg], "fault": ["cut", k] | ["corrupt", pos, byte] | ["none"]}
-The framed body is built as in C12; a cut ends the stream (EOF) after k body bytes, a corruption replaces one body byte.
-api = read | read_n n | read1_n n | stream amt | read_chunked amt | data (preload)
+        "decode": bool, "api": [name, arg], "fault": ["cut", k] | ["corrupt", pos, byte] | ["zcut", k] | ["none"]}
+The framed body is built as in C12; a cut ends the stream (EOF) after k body bytes, a corruption replaces one body byte; zcut: the
+compressed stream itself stops after k bytes and is then framed correctly (the framing is complete, the content is not).
+api = read | read_n n | read1_n n | read1_all (read1() without a size, until empty) | stream amt | read_chunked amt | data (preload)
 Observation: how reading ended (0 normal end, 1 InvalidChunkLength, 2 ended prematurely, 3 IncompleteRead, 4 DecodeError, 5 other urllib3 error,
 6 raw exception), the bytes delivered before that, and whether the next request on the same pool used another socket."""
 from __future__ import annotations
@@ -18,7 +19,7 @@ ID = "C13"
 GEN = ["Gen_Read"]
 RULE = ("C12's responses (payload 0..120 bytes, identity/gzip/zlib/zstd, Content-Length / chunked with chunk vectors and extensions / close-delimited), cut at "
         "every position from the first body byte to the last framing byte, or with one byte of a chunk-size line or of the compressed stream replaced; "
-        "read(), read(n) loops, read1(n) loops, stream(amt), read_chunked(amt), preloaded; decode on/off; followed by a second request on the same pool; "
+        "or with the compressed stream itself stopping short inside complete framing; read(), read(n) loops, read1(n) loops, read1() loops, stream(amt), read_chunked(amt), preloaded; decode on/off; followed by a second request on the same pool; "
         "non-trivial = every case with a fault; distinct = distinct (case, observation)")
 TRUSTED_BASE = [
     "model coq/model/ChunkParse.v (read_chunked / _update_chunk_length / _handle_chunk over the bytes after the headers ending in EOF, http.client._safe_read, BufferedReader.readline, int(line, 16))",
@@ -30,12 +31,15 @@ ASSUMPTIONS = ["enforce_content_length is left at its default", "a chunk-size li
 EXHAUSTIVE = {"quick": False, "thorough": False}
 CASE_TIMEOUT = 30
 
-APIS = {"read": 0, "read_n": 1, "read1_n": 2, "stream": 3, "read_chunked": 4, "data": 5}
+APIS = {"read": 0, "read_n": 1, "read1_n": 2, "stream": 3, "read_chunked": 4, "data": 5, "read1_all": 6}
 
 
 def build(case):
     """(head, body bytes as delivered, complete_point, size_line_spans) — body after the fault was applied"""
-    raw, head, body = c12.wire_of(case)
+    if case["fault"][0] == "zcut":
+        raw, head, body = c12.wire_of(case, raw=c12.compress(case["coding"], case["payload"])[:case["fault"][1]])
+    else:
+        raw, head, body = c12.wire_of(case)
     spans = []
     if case["framing"] == "chunked":
         i = 0
@@ -90,7 +94,7 @@ def in_model_domain(case):
 def encode(case):
     raw, head, body, complete, spans, eof = build(case)
     if case["framing"] == "len":
-        declared = len(c12.wire_of(case)[2])
+        declared = len(body) if case["fault"][0] == "zcut" else len(c12.wire_of(case)[2])
         return [1, list(body), declared, {"read": 0, "data": 0, "read_n": 1, "stream": 3}.get(case["api"][0], 9), case["api"][1] or 0, B(case["decode"]), B(eof)]
     return [list(body), Opt(case["api"][1]), B(eof)]
 
@@ -173,6 +177,12 @@ def impl(case):
                         if not p:
                             break
                         got += p
+                elif api == "read1_all":
+                    while True:
+                        p = r.read1(decode_content=dc)
+                        if not p:
+                            break
+                        got += p
                 elif api == "stream":
                     for p in r.stream(arg, decode_content=dc):
                         got += p
@@ -251,6 +261,16 @@ def oracle(case, obs):
     raw, head, body, complete, spans, eof = build(case)
     f = case["fault"]
     want = case["payload"] if case["decode"] else raw
+    if f[0] == "zcut":
+        # the framing is intact; the content coding is what is cut
+        full = c12.compress(case["coding"], case["payload"])
+        if end == 0 and case["decode"] and case["coding"] == "zstd" and f[1] < len(full):
+            return "the zstd stream is incomplete (%d of %d bytes inside complete framing) but reading ended normally with %d bytes" % (f[1], len(full), len(got))
+        if end == 0 and not case["decode"] and got != raw:
+            return "an intact (undecoded) body was not read back"
+        if end not in (0, 4):
+            return "a body with intact framing failed with end %d" % end
+        return None
     if f[0] == "none":
         if end != 0 or got != want:
             return "an intact response was not read back (end %d)" % end
@@ -317,7 +337,7 @@ def histogram(cases, obss):
 
 # ---------------------------------------------------------------- generators
 def apis(rng=None):
-    return [["read", None], ["read_n", 1], ["read_n", 7], ["read_n", 1000], ["read1_n", 3], ["read1_n", 1000], ["stream", 2], ["stream", 64], ["stream", None],
+    return [["read", None], ["read_n", 1], ["read_n", 7], ["read_n", 1000], ["read1_n", 3], ["read1_n", 1000], ["read1_all", None], ["stream", 1], ["stream", 2], ["stream", 64], ["stream", None],
             ["read_chunked", None], ["read_chunked", 3], ["data", None]]
 
 
@@ -342,6 +362,15 @@ def cases(rng, tier):
                 if a[0] == "read_chunked" and b["framing"] != "chunked":
                     continue
                 out.append(dict(b, api=list(a), fault=["cut", k]))
+    # a zstd stream stopping at every position inside complete framing x every API
+    for _ in range(2 if tier == "quick" else 12):
+        b = base_case(rng, rng.choice(["len", "chunked", "eof"]))
+        b["coding"], b["decode"], b["payload"] = "zstd", True, (b["payload"] + b"abcdefgh")[:16]
+        for k in range(len(c12.compress("zstd", b["payload"])) + 1):
+            for a in apis():
+                if a[0] == "read_chunked" and b["framing"] != "chunked":
+                    continue
+                out.append(dict(b, api=list(a), fault=["zcut", k]))
     # random cuts and corruptions
     for _ in range(1500 if tier == "quick" else 150000):
         b = base_case(rng)
@@ -350,7 +379,9 @@ def cases(rng, tier):
         if a[0] == "read_chunked" and b["framing"] != "chunked":
             a = ["stream", 7]
         x = rng.random()
-        if x < 0.45 and total:
+        if x < 0.12 and b["coding"] != "identity":
+            fault = ["zcut", rng.randrange(len(c12.compress(b["coding"], b["payload"])) + 1)]
+        elif x < 0.45 and total:
             fault = ["cut", rng.randrange(total)]
         elif x < 0.9 and total:
             c = dict(b, fault=["none"])
